@@ -479,7 +479,8 @@ example : vcompare (embedMaven mvRc1) (embedMaven mv10) = .ok (ordToInt (MavenCV
     MavenCV39.compare mvRc1 mv10 = .lt ∧ MavenCV39.compare mvA1 mvAlpha1 = .eq :=
   ⟨maven39_agree_partial _ _ ⟨mvRc1_dom, by decide⟩ ⟨mv10_dom, by decide⟩, by decide +kernel, by decide +kernel⟩
 
-/-- `maven_embed_inDomain`: `1.0-rc-1` as a version is in C01's `InDomain`. -/
+/-- `maven_embed_inDomain`: `1.0-rc-1` as a version is in C01's `InDomain`; `maven_embed_inShape`:
+`4.1.0.beta1` is in C01's `InShape` and `ZeroDotQual` there. -/
 example : C01Maven.InDomain (embedMaven mvRc1) := maven_embed_inDomain mvRc1 (by decide) (by decide)
 
 /-- `maven_elems_closed`: `3.0.0-beta` is `3`, `-beta`. -/
@@ -494,6 +495,9 @@ def mvJre : MavenCV.Ast := { nums := [4, 1], qual := some (.dash, [106, 114, 101
 theorem mvBeta1_dom : MavenDomain mvBeta1 ∧ ¬ Maven.NoZeroDotQual mvBeta1 := by decide
 
 example : MavenCV.render mvBeta1 = "4.1.0.beta1".toUTF8.toList := by decide +kernel
+
+example : C01Maven.InShape (embedMaven mvBeta1) ∧ ZeroDotQual (C01Maven.mavenElems (embedMaven mvBeta1)) = true :=
+  ⟨(maven_embed_inShape mvBeta1 (by decide)).1, (maven_embed_inShape mvBeta1 (by decide)).2.trans (by decide)⟩
 
 example : vcompare (embedMaven mv41) (embedMaven mvJre) = .ok (-1) ∧
     vcompare (embedMaven mvJre) (embedMaven mvBeta1) = .ok (-1) ∧
